@@ -381,7 +381,7 @@ class Evaluator:
     elif t == 'fld': self._walk_top_combs(e[1], f)
     elif t in ('elem', 'inx', 'arrow'): self._walk_top_combs(e[1], f); self._walk_top_combs(e[2], f)
     elif t == 'if':
-      for x in e[1:]: self._walk_top_combs(x, f)
+      for x in e[1:4]: self._walk_top_combs(x, f)
     elif t == 'call':
       for _, x in e[2]: self._walk_top_combs(x, f)
     elif t == 'aggr': self._walk_top_combs(e[2], f)
